@@ -357,7 +357,8 @@ func Cmp(dir string, tlcOuts []string, opt CmpOptions) {
 				vh.Summary(map[string]interface{}{"hang": true})
 				os.Exit(0)
 			}
-			if m := Compare(c, e, o); m != nil {
+			m := Compare(c, e, o)
+			if m != nil {
 				agreed = false
 				nmis++
 				sig := fmt.Sprintf("%s:%s:%s", opt.Prefix, m.Op, m.Kind)
@@ -371,6 +372,16 @@ func Cmp(dir string, tlcOuts []string, opt CmpOptions) {
 					sig += argClass(c)
 				}
 				report(sig, fmt.Sprintf("[%s buffers] program %x args %s limit %d: %s", lay, []byte(c.Prog), argsHex(c.Args), c.Limit, m.Desc), replay(c, e, o, lay))
+			}
+			// gas out of [0, limit] is reported whatever the first divergence was - except after an
+			// unpaid refund, whose gas creation (already reported under its own signature) explains it
+			if m == nil || (m.Kind != "bounds" && m.Kind != "unpaid-refund") {
+				if op, d := gasBounds(c, o); d != "" {
+					agreed = false
+					nmis++
+					report(fmt.Sprintf("%s:%s:bounds", opt.Prefix, op), fmt.Sprintf("[%s buffers] program %s args %s limit %d: %s",
+						lay, progHex(c.Prog), argsHex(c.Args), c.Limit, d), replay(c, e, o, lay))
+				}
 			}
 			if o.NonTerm {
 				agreed = false
@@ -554,4 +565,32 @@ func Main(opt CmpOptions, gen func(args []string) []*Case) {
 	default:
 		vh.Fatal("unknown command %q", os.Args[1])
 	}
+}
+
+func progHex(p Bytes) string {
+	if len(p) > 200 {
+		return fmt.Sprintf("%x...(%d bytes)", []byte(p[:80]), len(p))
+	}
+	return fmt.Sprintf("%x", []byte(p))
+}
+
+// gasBounds: 0 <= remaining gas <= limit must hold before every instruction of every machine (a child
+// never gets more than its parent has) and for the gasLeft that vm.Verify returns - whatever else
+// the execution does. Returns the instruction held responsible and a description, or "", "".
+func gasBounds(c *Case, o *Obs) (string, string) {
+	prev := "start"
+	for _, l := range o.Lines {
+		if !l.Header {
+			continue
+		}
+		if l.Gas < 0 || l.Gas > c.Limit {
+			return prev, fmt.Sprintf("remaining gas before %s at pc %d (depth %d) is %d, outside [0, %d]: %s moved the run limit out of its bounds",
+				l.Name, l.PC, l.D, l.Gas, c.Limit, prev)
+		}
+		prev = l.Name
+	}
+	if !o.NonTerm && !o.Hang && (o.Gas < 0 || o.Gas > c.Limit) {
+		return prev, fmt.Sprintf("vm.Verify returned gasLeft %d outside [0, %d] (result %s, last instruction %s)", o.Gas, c.Limit, o.Err, prev)
+	}
+	return "", ""
 }
